@@ -174,7 +174,11 @@ func hComponents(n int, variant int) []ISwComponent {
 func validSets() []IClaims {
 	var out []IClaims
 	texts := []string{"vsi", "https://psa\"verifier\\.org/é\u0001<&>"}
-	for mask := 0; mask < 16; mask++ {
+	masks := 16
+	if hThorough() {
+		masks = 96 // the four option bits x every residue combination of the value tables (lcm 3,4 = 12 -> 96 masks)
+	}
+	for mask := 0; mask < masks; mask++ {
 		for _, prof := range []string{Profile1Name, Profile2Name} {
 			c, err := NewClaims(prof)
 			if err != nil {
@@ -208,7 +212,7 @@ func validSets() []IClaims {
 			if mask&4 != 0 {
 				must(c.SetVSI(texts[mask%2]))
 			}
-			if prof == Profile1Name && mask == 5 {
+			if prof == Profile1Name && mask%16 == 5 {
 				must(c.SetSoftwareComponents(nil))
 			} else {
 				must(c.SetSoftwareComponents(hComponents(1+mask%4, mask)))
@@ -524,7 +528,14 @@ type claimVariant struct {
 
 func bytesVariants(valid []int, mandatory bool) []claimVariant {
 	vs := []claimVariant{{"absent", nil, !mandatory}, {"null", wNull, !mandatory}}
-	for _, l := range []int{0, 7, 8, 31, 32, 33, 47, 48, 49, 63, 64, 65} {
+	lens := []int{0, 7, 8, 31, 32, 33, 47, 48, 49, 63, 64, 65}
+	if hThorough() {
+		lens = nil
+		for l := 0; l <= 70; l++ { // every byte-string length 0..70
+			lens = append(lens, l)
+		}
+	}
+	for _, l := range lens {
 		good := false
 		for _, v := range valid {
 			if v == l {
